@@ -15,4 +15,5 @@ CONSTANTS
  Dev_UidCollision = FALSE
  BottomUp = FALSE
  Dev_UidSubtreeUnchecked = FALSE
+ Dev_TopKeepsParent = FALSE
  MaxDel = 1
